@@ -106,6 +106,16 @@ func main() {
 	if _, ok := kinds["leafUnverifiableAlg"]; ok {
 		allKinds = append(allKinds, "leafUnverifiableAlg", "leafUnverifiableAlg")
 	}
+	// a version 1 end-entity certificate issued by the root (no basic constraints: not a CA; not self-signed)
+	kinds["v1EndEntity"] = certKind{"v1EndEntity", &lib.Ent{Cert: lib.MintV1(root, "c13-v1-end-entity", 3)}, false, false}
+	allKinds = append(allKinds, "v1EndEntity", "v1EndEntity")
+	// a CA certificate self-issued by NAME whose SHA-1 signature was made by another key: a CA (fine for ca / signingAuthority
+	// stores), but no self-signed root (tsa stores) - that its signature cannot be checked does not make it one
+	if c := lib.MintSHA1SelfIssuedCA(); c != nil {
+		kinds["sha1SelfIssuedByNameCA"] = certKind{"sha1SelfIssuedByNameCA", &lib.Ent{Cert: c}, true, false}
+		allKinds = append(allKinds, "sha1SelfIssuedByNameCA", "sha1SelfIssuedByNameCA")
+		r.Event("kind-sha1-self-issued-by-name-available")
+	}
 
 	types := []struct {
 		s     string
@@ -119,6 +129,7 @@ func main() {
 	names := []nm{{"s", true, true}, {"store-1", true, true}, {"s.t-o_r", true, true}, {".hidden", true, true}, {"A_b.crt", true, true},
 		{".", false, true}, {"..", false, true}, {"", false, true}, {"a/b", false, true}, {"a\\b", false, true}, {"../s", false, true}, {"s/..", false, true}, {"/abs", false, true}, {"s/", false, true},
 		{"\u212aelvin.Store_1", false, true}, {"\u017ftore", false, true}, {"st\u00f6re", false, true}, // (KELVIN SIGN, LONG S: they fold to k and s; a plain name is ASCII letters, digits, _ . -)
+		{strings.Repeat("a", 300), false, true}, {strings.Repeat("long.name-", 30), false, true}, // (longer than a file name can be: such a store cannot exist; still an error, not a crash)
 		{"...", true, false}}
 
 	n := r.N(10000, 300000)
@@ -137,6 +148,11 @@ func main() {
 			sc.Type, sc.Name, sc.Shape = []string{"ca", "signingAuthority", "tsa"}[rng.Intn(3)], ".", "dotname-type"
 			os.MkdirAll(filepath.Join(x509dir, sc.Type), 0o755)
 			os.WriteFile(filepath.Join(x509dir, sc.Type, "loose.crt"), lib.PEMCert(decoy.Cert), 0o644)
+			want = false
+		case mode == 2 && i%3 == 0: // truststore/x509/<type> is a regular FILE (a certificate somebody copied one level too high)
+			sc.Type, sc.Name, sc.Shape = []string{"ca", "signingAuthority", "tsa"}[rng.Intn(3)], "s", "type-is-a-file"
+			os.MkdirAll(x509dir, 0o755)
+			os.WriteFile(filepath.Join(x509dir, sc.Type), root.Cert.Raw, 0o644)
 			want = false
 		case mode == 1: // loose certificates directly under x509/ and no type directories at all
 			sc.Type, sc.Name, sc.Shape = []string{"ca", "signingAuthority", "tsa"}[rng.Intn(3)], "..", "dotname-x509"
